@@ -13,6 +13,7 @@ Un(op, e)   == [k |-> "un", op |-> op, e |-> e]
 CmpE(op, l, r) == [k |-> "cmp", op |-> op, l |-> l, r |-> r]
 LikeE(neg, l, r) == [k |-> "like", neg |-> neg, l |-> l, r |-> r]
 InE(neg, l, list) == [k |-> "in", neg |-> neg, l |-> l, list |-> list]
+Dual == [k |-> "dual", as |-> ""]
 InSub(l, q) == [k |-> "insub", l |-> l, q |-> q]
 NotInSub(l, q) == [k |-> "insub", l |-> l, q |-> q, neg |-> TRUE]
 Between(neg, e, lo, hi) == [k |-> "between", neg |-> neg, e |-> e, lo |-> lo, hi |-> hi]
